@@ -60,7 +60,8 @@ class Variables:
 
     def inline_variables(self, sql: str) -> str:
         for name, value in self._variables.items():
-            sql = re.sub(rf"\${name}", value, sql, flags=re.IGNORECASE)
+            # don't match longer names that start with this name, and insert the value literally
+            sql = re.sub(rf"\${name}(?!\w)", lambda _, v=value: v, sql, flags=re.IGNORECASE)
 
         if remaining_variables := re.search(r"(?<!\$)\$\w+", sql):
             raise snowflake.connector.errors.ProgrammingError(
